@@ -1030,6 +1030,9 @@ impl ParserState {
         self.last_force_bytes_len = usize::MAX;
         self.lexer_stack_top_eos = false;
         self.rows_valid_end = self.num_rows();
+        // the cached mask is keyed by (lexer state, row index), and the row at that
+        // index may be rebuilt with different content after a rollback
+        self.bias_cache = None;
 
         self.assert_definitive();
 
